@@ -42,7 +42,7 @@ prop("C02",
 prop("C03",
      [("S1", S.S1, K01, {}), ("S2", S.S2, K01, {}), ("S3", S.S3, K01, {}), ("S5", S.S5, K01, {}),
       ("S6", S.S6, K01, {"roles_filter": ("READY", "DONE")}),
-      ("R3", B.R3, ("K0",), {"parts": ("structures", "counts")}), ("R4", B.R4, ("K0",), {}), ("O6", R.O6, K01, {})],
+      ("R3", B.R3, ("K0",), {"parts": ("structures", "counts")}), ("R4", B.R4, ("K0",), {}), ("O6", R.O6, K01, {}), ("T5", T.T5, K01, {})],
      K01,
      "Decides S2 (each ready-send is the preload of all zero-count nodes or the release at count==0 after the decrement), "
      "S3 (counts only decrease by one per predecessor edge), S6 (channel capacities are monotone in node_count so try_send never drops an id) "
@@ -68,7 +68,7 @@ prop("C05",
      [("T3", T.T3, K01, {"want_stream": True}), ("U1", T.U1, K01, {}), ("S2", S.S2, K01, {}), ("S3", S.S3, K01, {}),
       ("S5", S.S5, K01, {}), ("S7", S.S7, K01, {}), ("S4", S.S4, K01, {"liveness": True}),
       ("S6", S.S6, K01, {"roles_filter": ("READY", "DONE")}),
-      ("R3", B.R3, ("K0",), {"parts": ("structures", "counts")})],
+      ("R3", B.R3, ("K0",), {"parts": ("structures", "counts")}), ("T5", T.T5, K01, {})],
      K01,
      "Decides T3 on the stream poll closure (no return that may be Pending after a Ready(Some) from the done receiver without re-polling it), "
      "U1 (end-of-stream bookkeeping: countdown from node_count decremented on Ready(Some), both senders released at 0 and for the empty graph, "
@@ -119,12 +119,14 @@ prop("C11",
      "acyclicity of the augmented graph, unreachability of the two expect()s, and that every conflicting pair is joined by a path (semantic invariant of the rank-sorted scan)")
 
 prop("C12",
-     [("D1", B.D1, K04, {}), ("D2", B.D2, K04, {}), ("D3", B.D3, K04, {}), ("D4", B.D4, K04, {})],
+     [("D1", B.D1, K04, {}), ("D2", B.D2, K04, {}), ("D3", B.D3, K04, {}), ("D4", B.D4, K04, {}),
+      ("K", B.C13_rules, K04, {}), ("E", B.C16_rules, K04, {})],
      K04,
      "Decides D1 (ids listed in ascending id order and sorted by a stable sort whose comparator is ranks[first] vs ranks[second], ascending), "
      "D2 (the Data edge goes from the outer element to an element at a later position of the same sorted list), D3 (no hash-ordered container, "
      "RNG, clock, thread, env or address-derived value reachable from build()), D4 (FnGraph == compares node count, each edge's source, target and "
-     "weight, and each function, pairwise over unfiltered zipped sequences, as a conjunction: one unequal pair decides), D2 also requires the outer scan to run from the highest rank down (non-redundancy).",
+     "weight, and each function, pairwise over unfiltered zipped sequences, as a conjunction: one unequal pair decides), D2 also requires the outer scan to run from the highest rank down (non-redundancy); "
+     "K1-K5 (the ranks the order is defined by are the logic/contains longest-path ranks) and E1-E3 (an edge's kind, which == compares, is the one its builder method names).",
      "MIR expression reconstruction of the comparator/list construction + iterator-chain inventory + callee/type inventory",
      "non-redundancy of Data edges and the exact tie-break outcome as functions of the input")
 
